@@ -490,43 +490,80 @@ structure SegState where
   curr_offset : Nat
   prev_offset : Nat
 
-/-- one iteration of `for i in starting_index..params.segment_length` -/
-def fill_segment_body (params : Params) (position : BlockPos) (data_independent_addressing : Bool)
-    (zero_block : Block) (st : SegState) (i : Nat) : Option SegState := do
-  let stride := st.memory.stride
-  -- 1.1 Rotating prev_offset if needed
-  let prev_offset ← if (← remU st.curr_offset stride) = 1 then subU st.curr_offset 1 else pure st.prev_offset
-  -- 1.2.1 Taking pseudo-random value from the previous block
-  let (address_block, input_block, pseudo_rand) ←
-    if data_independent_addressing then do
-      let (address_block, input_block) ←
-        if i % 128 = 0 then next_addresses st.address_block st.input_block zero_block
-        else pure (st.address_block, st.input_block)
-      pure (address_block, input_block, address_block[i % 128]'(Nat.mod_lt _ (by omega)))
-    else do
-      let b ← st.memory.block_index prev_offset
-      pure (st.address_block, st.input_block, b[0])
-  -- 1.2.2 Computing the lane of the reference block
-  let ref_lane ←
-    if position.pass = 0 ∧ position.slice = 0 then pure position.lane
-    else remU (pseudo_rand >>> 32).toNat params.parallelism
-  -- 1.2.3 Computing the number of possible reference block within the lane.
+/-- 1.1 Rotating prev_offset if needed: `if curr_offset % memory.stride() == 1 { prev_offset = curr_offset - 1 }` -/
+def fill_segment_body.rotate (st : SegState) : Option Nat :=
+  match remU st.curr_offset st.memory.stride with
+  | none => none
+  | some m => if m = 1 then subU st.curr_offset 1 else some st.prev_offset
+
+/-- 1.2.1 Taking pseudo-random value: from the address block (refreshed when `i % 128 == 0`) or from word 0 of the
+    previous block; returns `(address_block, input_block, pseudo_rand)` -/
+def fill_segment_body.pseudo_rand (data_independent_addressing : Bool) (zero_block : Block) (st : SegState)
+    (prev_offset i : Nat) : Option (Block × Block × UInt64) :=
+  if data_independent_addressing then
+    match (if i % 128 = 0 then next_addresses st.address_block st.input_block zero_block
+           else some (st.address_block, st.input_block)) with
+    | none => none
+    | some (address_block, input_block) =>
+      some (address_block, input_block, address_block[i % 128]'(Nat.mod_lt _ (by omega)))
+  else
+    match st.memory.block_index prev_offset with
+    | none => none
+    | some b => some (st.address_block, st.input_block, b[0])
+
+/-- 1.2.2 Computing the lane of the reference block -/
+def fill_segment_body.ref_lane (params : Params) (position : BlockPos) (pseudo_rand : UInt64) : Option Nat :=
+  if position.pass = 0 ∧ position.slice = 0 then some position.lane
+  else remU (pseudo_rand >>> 32).toNat params.parallelism
+
+/-- 1.2.3 … 2: reference index, the three block reads, `fill_block`, the write; returns the memory -/
+def fill_segment_body.new_block (params : Params) (position : BlockPos) (st : SegState) (prev_offset ref_lane : Nat)
+    (pseudo_rand : UInt64) (i : Nat) : Option Memory :=
   let position := { position with index := i }
   let pseudo_rand_u32 := (pseudo_rand &&& 0xffffffff).toNat % 2 ^ 32
   let same_lane := ref_lane == position.lane
-  let ref_index ← index_alpha params position pseudo_rand_u32 same_lane
-  -- 2 Creating a new block
-  let index ← add64 (← mul64 params.lane_length ref_lane) ref_index
-  let curr_block ← st.memory.block_index st.curr_offset
-  let prev_block ← st.memory.block_index prev_offset
-  let ref_block ← st.memory.block_index64 index
-  let with_xor := !(params.version == 0x10 || position.pass == 0)
-  let curr_block := fill_block prev_block ref_block curr_block with_xor
-  let memory ← st.memory.set_block_index st.curr_offset curr_block
-  let curr_offset ← add32 st.curr_offset 1
-  let prev_offset ← add32 prev_offset 1
-  pure { memory := memory, input_block := input_block, address_block := address_block,
-         curr_offset := curr_offset, prev_offset := prev_offset }
+  match index_alpha params position pseudo_rand_u32 same_lane with
+  | none => none
+  | some ref_index =>
+  match (mul64 params.lane_length ref_lane).bind (fun a => add64 a ref_index) with
+  | none => none
+  | some index =>
+  match st.memory.block_index st.curr_offset with
+  | none => none
+  | some curr_block =>
+  match st.memory.block_index prev_offset with
+  | none => none
+  | some prev_block =>
+  match st.memory.block_index64 index with
+  | none => none
+  | some ref_block =>
+    let with_xor := !(params.version == 0x10 || position.pass == 0)
+    let curr_block := fill_block prev_block ref_block curr_block with_xor
+    st.memory.set_block_index st.curr_offset curr_block
+
+/-- one iteration of `for i in starting_index..params.segment_length` -/
+def fill_segment_body (params : Params) (position : BlockPos) (data_independent_addressing : Bool)
+    (zero_block : Block) (st : SegState) (i : Nat) : Option SegState :=
+  match fill_segment_body.rotate st with
+  | none => none
+  | some prev_offset =>
+  match fill_segment_body.pseudo_rand data_independent_addressing zero_block st prev_offset i with
+  | none => none
+  | some (address_block, input_block, pseudo_rand) =>
+  match fill_segment_body.ref_lane params position pseudo_rand with
+  | none => none
+  | some ref_lane =>
+  match fill_segment_body.new_block params position st prev_offset ref_lane pseudo_rand i with
+  | none => none
+  | some memory =>
+  match add32 st.curr_offset 1 with
+  | none => none
+  | some curr_offset =>
+  match add32 prev_offset 1 with
+  | none => none
+  | some prev_offset =>
+    some { memory := memory, input_block := input_block, address_block := address_block,
+           curr_offset := curr_offset, prev_offset := prev_offset }
 
 def fill_segment_loop (params : Params) (position : BlockPos) (dia : Bool) (zero_block : Block) :
     List Nat → SegState → Option SegState
